@@ -2,7 +2,11 @@
 Scenario :  <jump 0|1> <n> desc*n op*
   desc   :  :p $name (plain allocator object) | :k j (AccountingTestMemoryAllocator around object j) | :l j (MemoryLeakAllocator around object j)
   op     :  :a e al addr size | :f e al addr|~ | :r al addr|~ newaddr size | :w addr $bytes | :t 0|1
-  e      :  0 operator new/delete, 1 new[]/delete[], 2 cpputest_malloc/free(/realloc), 3 MemoryLeakAllocator::alloc_memory/free_memory
+            | :e 0|1|2|3 (detector disable / enable / startChecking / stopChecking) | :s 0|1 (decrease / increaseAllocationStage)
+            | :m 0|1 (default / thread-safe overloads installed)
+  e      :  0 operator new/delete, 1 new[]/delete[], 2 cpputest_malloc/free(/realloc), 3 MemoryLeakAllocator::alloc_memory/free_memory,
+            4 / 5 MemoryLeakDetector::allocMemory/deallocMemory called directly with allocatNodesSeperately = false / true
+  The detector starts as its constructor leaves it: period disabled, stage 0, type checking on.
   addr   :  slot*0x1200 + offset (64 slots); 0x48000+k = a stack object / a static object / a foreign heap block
 Observation: per :f/:r   | callbacks category nfreed (addr $bytes-seen-by-free_memory|~)* outstanding-total result-non-NULL
   category: 0 none, 1 deallocating non-allocated memory, 2 allocation/deallocation type mismatch, 3 memory corruption, 9 other text."""
@@ -29,7 +33,13 @@ RULE = ("(a) guard sweep: block sizes 0..64, 255, 256, 4095 x every guard positi
         "accounting wrappers, MemoryLeakAllocator around plain and wrapped allocators) x type checking on/off x guard intact/changed (precedence); "
         "(d) addresses: NULL, stale (released twice, also after a reported release), interior (+1, +73 = same hash bucket, last user byte, "
         "first guard byte), never allocated slots in the same bucket, stack/static/foreign heap; (e) random histories of 3-40 operations over "
-        "1-8 live blocks mixing all of it, each with a returning and with a non-returning (longjmp) failure callback.  "
+        "1-8 live blocks mixing all of it, each with a returning and with a non-returning (longjmp) failure callback; (f) detector "
+        "environment: block allocated in period P at stage g, released in period Q at stage h for all 3x3 periods (each reached by every "
+        "route: fresh detector, disable, enable, startChecking, stopChecking) x {delete, delete[], free, realloc, MemoryLeakAllocator, "
+        "direct inline/separate record} x sizes {0,1,2,3,7,8,64,255,1000} x outcome {paired, mismatch, guard changed, stale, interior} x type "
+        "checking switched between allocation and release x default/thread-safe overloads; every scenario of (a)-(e) is additionally run "
+        "under a random environment (period/stage/overload switches inserted at random points; one third stay in "
+        "the fresh, disabled detector).  "
         "non-trivial = at least one release of a non-NULL address")
 ASSUMPTIONS = ["the releasing allocator object is alive (a destroyed allocator makes deallocMemory skip every check: static destruction order escape hatch)",
                "the underlying allocator hands out regions that do not overlap live blocks (arena slots); writes of the user program stay "
@@ -38,6 +48,7 @@ ASSUMPTIONS = ["the releasing allocator object is alive (a destroyed allocator m
                "a MemoryLeakAllocator is used the way SimpleString uses it (its alloc_memory/free_memory called directly), not installed as "
                "current allocator of new/delete/malloc (that would track every block twice)",
                "cpputest_realloc succeeds at the platform level (failures are property C05)",
+               "heap poisoning compiled in (CPPUTEST_DISABLE_HEAP_POISON not defined: it removes the clause by configuration)",
                "LP64"]
 LEVEL_TEXT = ("Machine-checked (Coq) theorems over an executable model of MemoryLeakDetector::deallocMemory / reallocMemory / checkForCorruption / "
               "matchingAllocation / validMemoryCorruptionInformation / addMemoryCorruptionInformation / invalidateMemory and the actualAllocator() "
@@ -46,14 +57,19 @@ LEVEL_TEXT = ("Machine-checked (Coq) theorems over an executable model of Memory
               "checking on and the names of the actual allocators differ; else corruption iff some guard byte differs from the pattern; else "
               "nothing), user-byte writes never change it, every single guard byte change at every position to every other value is reported, "
               "NULL and paired releases are silent, delete/delete[]/free hand the allocator `size` poison bytes, a reported release still removes "
-              "the record; and run_meets_spec: the model satisfies the model-free oracle on every valid scenario. Tied to the code by a "
+              "the record -- all of it for states with arbitrary period, allocation stage and record stamps; period_independent: two histories "
+              "that differ only in enable/disable/startChecking/stopChecking/allocation-stage/overload switches (and in the period, stage "
+              "and stamps they start from) yield the same reports, poison observations and totals, item for item; "
+              "and run_meets_spec: the model satisfies the model-free oracle on every valid scenario. Tied to the code by a "
               "differential run through the real global operator delete/delete[], cpputest_free/realloc and MemoryLeakAllocator on a private "
-              "detector, with the extracted spec judging the implementation; guard pattern, guard size and poison byte are re-read from the source.")
+              "detector left in exactly the period/stage the scenario's history puts it in (fresh = disabled), with the extracted spec judging "
+              "the implementation; guard pattern, guard size and poison byte are re-read from the source.")
 LEVEL_NOTE = ("Modelled, not verified: the C++ itself. Outside the model: a destroyed releasing allocator (hasBeenDestroyed skips all checks), "
-              "SimpleStringCacheAllocator as a callable wrapper (only its actualAllocator() body is pinned by the translator), the thread-safe "
-              "entry points (same bodies behind a mutex; their invalidate-then-dealloc shape is pinned by the translator; locking is C10), "
-              "failing platform realloc (C05), the separate/inline leak record (it only decides whether freeMemoryLeakNode is called; not part of "
-              "the observation). Trusted: Coq kernel, extraction, harness, generator, translator-lite.")
+              "SimpleStringCacheAllocator as a callable wrapper (only its actualAllocator() body is pinned by the translator), the locking of the thread-safe "
+              "entry points (they are driven single-threaded; locking is C10), deallocAllMemoryInCurrentAllocationStage (C04), "
+              "failing platform realloc (C05), a build with CPPUTEST_DISABLE_HEAP_POISON / CPPUTEST_DISABLE_MEM_CORRUPTION_CHECK. The "
+              "separate/inline leak record is driven in both layouts with every allocator (it only decides whether freeMemoryLeakNode is "
+              "called, which is not part of the observation). Trusted: Coq kernel, extraction, harness, generator, translator-lite.")
 TECHNIQUE = "Coq proof over hand-written executable model (reusing the C04 table) + extracted-model/implementation correspondence check (differential)"
 
 
@@ -71,7 +87,7 @@ def parse(s):
             ds.append((t[i][1:], int(t[i + 1], 16)))
         i += 2
     ops = []
-    ar = {":a": 4, ":f": 3, ":r": 4, ":w": 2, ":t": 1}
+    ar = {":a": 4, ":f": 3, ":r": 4, ":w": 2, ":t": 1, ":e": 1, ":s": 1, ":m": 1}
     while i < len(t):
         k = ar[t[i]]
         ops.append(t[i:i + 1 + k])
@@ -98,6 +114,10 @@ class Sim:
         self.jump, self.ds = jump, ds
         self.blocks = {}     # addr -> [size, family, guard bytes]
         self.tc = True
+        # not consulted by expect(): only so that classify() can say where the generated cases lie
+        self.period, self.stage, self.ts = 0, 0, 0
+        self.stamp = {}      # addr -> (period, stage, tc) at allocation
+        self.env_at_release = []
 
     def actual(self, i):
         while self.ds[i][0] != "p":
@@ -136,6 +156,7 @@ class Sim:
     def alloc(self, e, al, a, n):
         assert self.alloc_ok(e, al) and a % SLOT == 0 and a < NSLOTS * SLOT and n <= MAXSIZE and a not in self.blocks, (e, al, a, n)
         self.blocks[a] = [n, self.fam(e, al), list(PAT)]
+        self.stamp[a] = (self.period, self.stage, self.tc)
 
     def write(self, w, bs):
         ok = False
@@ -151,6 +172,7 @@ class Sim:
     def free(self, e, al, p):
         assert self.alloc_ok(e, al)
         c = self.expect(self.fam(e, al), p)
+        self.env_at_release.append((self.stamp.get(p) if p in self.blocks else None, (self.period, self.stage, self.tc), self.ts))
         if p is not None:
             self.blocks.pop(p, None)
         return c
@@ -158,12 +180,14 @@ class Sim:
     def realloc(self, al, p, na, n):
         assert self.alloc_ok(2, al)
         c = self.expect(self.fam(2, al), p)
+        self.env_at_release.append((self.stamp.get(p) if p in self.blocks else None, (self.period, self.stage, self.tc), self.ts))
         if p is not None:
             self.blocks.pop(p, None)
         created = c == 0 or (c in (2, 3) and not self.jump)
         assert na % SLOT == 0 and na < NSLOTS * SLOT and n <= MAXSIZE and na not in self.blocks, (na, n)
         if created:
             self.blocks[na] = [n, self.fam(2, al), list(PAT)]
+            self.stamp[na] = (self.period, self.stage, self.tc)
         return c
 
     def apply(self, o):
@@ -178,6 +202,12 @@ class Sim:
             self.write(int(o[1], 16), list(bytes.fromhex(o[2][1:])))
         elif k == ":t":
             self.tc = o[1] != "0"
+        elif k == ":e":
+            self.period = {0: 0, 1: 1, 2: 2, 3: 1}[int(o[1], 16)]
+        elif k == ":s":
+            self.stage = (self.stage + (1 if o[1] != "0" else 255)) % 256
+        elif k == ":m":
+            self.ts = int(o[1] != "0")
         return None
 
 
@@ -200,7 +230,10 @@ DS = [("p", N_NEW), ("p", N_ARR), ("p", N_MAL),              # 0 1 2   the three
       ("p", b"Standard New Allocator2"), ("p", b""), ("l", 12)]           # 15 extension of 0; 16 empty name; 17 MemoryLeakAllocator(custom)
 PLAIN_LIKE = [0, 1, 2, 3, 4, 5, 6, 11, 12, 13, 14, 15, 16]    # usable as current allocator of new / new[] / malloc
 MLAS = [7, 8, 9, 10, 17]
-NATURAL = {0: [0, 3, 6, 11], 1: [1, 4], 2: [2, 5], 3: [7, 8, 9, 10]}
+NATURAL = {0: [0, 3, 6, 11], 1: [1, 4], 2: [2, 5], 3: [7, 8, 9, 10], 4: [0, 1, 5, 12], 5: [2, 0, 4, 14]}
+ENTRY_NAMES = ["new", "new[]", "malloc", "string", "direct-inline", "direct-separate"]
+RELEASE_NAMES = ["delete", "delete[]", "free", "string", "direct-inline", "direct-separate"]
+PERIOD_NAMES = ["disabled", "enabled", "checking"]
 
 
 def A(e, al, a, n):
@@ -221,6 +254,30 @@ def Wr(a, bs):
 
 def T(b):
     return [":t", "1" if b else "0"]
+
+
+def E(k):
+    return [":e", "%x" % k]
+
+
+def St(up):
+    return [":s", "1" if up else "0"]
+
+
+def M(ts):
+    return [":m", "1" if ts else "0"]
+
+
+# every way of putting the detector into a period (from any period): disabled, enabled, checking
+ROUTES = {0: [[], [E(0)], [E(2), E(0)], [E(1), E(0)]],
+          1: [[E(1)], [E(2), E(3)], [E(3)], [E(0), E(1)]],
+          2: [[E(2)], [E(1), E(2)], [E(0), E(2)], [E(3), E(2)]]}
+
+
+def route(period, k, fresh):
+    """ops that put the detector into `period`; the empty route (leave a fresh detector alone) only when it is fresh"""
+    rs = ROUTES[period] if fresh else [r for r in ROUTES[period] if r]
+    return [list(o) for o in rs[k % len(rs)]]
 
 
 def slot(k):
@@ -342,6 +399,88 @@ def gen_addresses(tier, rng, out):
                     out.append(mk(j % 5 == 0, ops))
 
 
+def random_env_op(rng):
+    r = rng.random()
+    if r < 0.6:
+        return E(rng.randrange(4))
+    if r < 0.85:
+        return St(rng.random() < 0.6)
+    return M(rng.random() < 0.5)
+
+
+def decorate(s, rng):
+    """the same scenario under another environment: the detector put into a random period first (one third stay in the fresh,
+    disabled detector), then period / stage / overload switches at random points"""
+    if rng.random() < 1 / 3:
+        return s
+    jump, ds, ops = parse(s)
+    new = route(rng.randrange(3), rng.randrange(4), True)
+    if rng.random() < 0.3:
+        new.append(St(rng.random() < 0.7))
+    if rng.random() < 0.25:
+        new.append(M(1))
+    dens = rng.choice([0.0, 0.1, 0.3])
+    for o in ops:
+        while rng.random() < dens:
+            new.append(random_env_op(rng))
+        new.append(o)
+    return unparse(jump, ds, new)
+
+
+def gen_env(tier, rng, out):
+    """allocated in period P, released in period Q: every pair, every release path, every size class, every outcome"""
+    thorough = tier == "thorough"
+    sizes = [0, 1, 2, 3, 7, 8, 64, 255, 1000] if thorough else [0, 1, 2, 7, 64, 255]
+    kinds = [0, 1, 2, "r", 3, 4, 5]
+    outcomes = ["paired", "mismatch", "guard", "stale", "interior"]
+    ref = Sim(0, DS)
+    j = 0
+    for P in range(3):
+        for Q in range(3):
+            for rk in kinds:
+                e2 = 2 if rk == "r" else rk
+                al2 = NATURAL[e2][0]
+                for n in sizes:
+                    for oc in (outcomes if thorough else ["paired", rng.choice(outcomes[1:])]):
+                        j += 1
+                        e1, al1 = e2, al2
+                        if oc == "mismatch":
+                            e1 = [e for e in (0, 1, 2) if ref.fam(e, NATURAL[e][0]) != ref.fam(e2, al2)][j % 2]
+                            al1 = NATURAL[e1][j % len(NATURAL[e1])]
+                        a = slot(j % NSLOTS)
+                        tcv = j % 4 if oc == "mismatch" else (j % 8 if j % 8 < 4 else 0)
+                        ops = route(P, j // 3, True)
+                        if j % 4 == 1:
+                            ops.append(M(1))
+                        if j % 3 == 0:
+                            ops.append(St(1))
+                        if tcv in (1, 3):
+                            ops.append(T(0))
+                        ops.append(A(e1, al1, a, n))
+                        if n:
+                            ops.append(Wr(a, [0x5A] * min(n, 300)))
+                        if oc == "guard":
+                            ops.append(Wr(a + n + j % G, [rng.choice([0, 0xFF, 0xCD, PAT[(j + 1) % G]])]))
+                        # the environment moves between allocation and release
+                        ops += route(Q, j // 5, False) if (P != Q or j % 2) else []
+                        if j % 4 == 2:
+                            ops.append(M(1))
+                        if j % 5 in (1, 2):
+                            ops.append(St(j % 5 == 1))
+                        if tcv == 1:
+                            ops.append(T(1))
+                        if tcv == 2:
+                            ops.append(T(0))
+                        if oc == "interior":
+                            bad = a + 1 if n >= 2 else rng.choice(FOREIGN)
+                            ops.append(F(e2, al2, bad) if rk != "r" else R(al2, bad, slot((j + 7) % NSLOTS), 4))
+                        na = slot((j + 31) % NSLOTS)
+                        ops.append(F(e2, al2, a) if rk != "r" else R(al2, a, na, (n * 2) % 50))
+                        if oc == "stale":
+                            ops.append(F(e2, al2, a) if rk != "r" else R(al2, a, slot((j + 32) % NSLOTS), 3))
+                        out.append(mk(j % 3 == 0, ops))
+
+
 def gen_random(tier, rng, out, count):
     for _ in range(count):
         jump = rng.random() < 0.4
@@ -349,13 +488,22 @@ def gen_random(tier, rng, out, count):
         ops = []
         info = {}      # addr -> (e, al)
         dead = []
+        envy = rng.choice([0.0, 0.08, 0.2])       # how often the environment moves
+        if rng.random() < 2 / 3:
+            for o in route(rng.randrange(3), rng.randrange(4), True):
+                sim.apply(o)
+                ops.append(o)
         for _ in range(rng.randrange(3, 41)):
             live = list(sim.blocks.keys())
+            if rng.random() < envy:
+                o = random_env_op(rng)
+                sim.apply(o)
+                ops.append(o)
             r = rng.random()
             o = None
             if r < 0.28 or not live:
                 if len(live) < 8:
-                    e = rng.randrange(4)
+                    e = rng.randrange(6)
                     al = rng.choice(NATURAL[e] if rng.random() < 0.7 else (PLAIN_LIKE if e != 3 else MLAS))
                     free_slots = [k for k in range(NSLOTS) if slot(k) not in sim.blocks]
                     a = slot(rng.choice(free_slots)) if rng.random() < 0.6 or not dead else rng.choice(dead)
@@ -385,11 +533,11 @@ def gen_random(tier, rng, out, count):
                     a = rng.choice(live)
                     e, al = info[a]
                     if rng.random() < 0.3:
-                        e = rng.randrange(4)
+                        e = rng.randrange(6)
                         al = rng.choice(NATURAL[e] if rng.random() < 0.5 else (PLAIN_LIKE if e != 3 else MLAS))
                     p = a
                 else:
-                    e = rng.randrange(4)
+                    e = rng.randrange(6)
                     al = rng.choice(NATURAL[e])
                     base = rng.choice(live)
                     p = rng.choice([None, base + 1, base + 73, base + sim.blocks[base][0], rng.choice(FOREIGN), slot(rng.randrange(NSLOTS))] + dead[-3:])
@@ -424,6 +572,8 @@ def generate(tier, rng):
     gen_user(tier, rng, out)
     gen_pairs(tier, rng, out)
     gen_addresses(tier, rng, out)
+    out[:] = [decorate(s, rng) for s in out]
+    gen_env(tier, rng, out)
     gen_random(tier, rng, out, 400 if tier == "quick" else 50000)
     bad = [s for s in out if expected(s) is None]
     assert not bad, "generator produced an invalid scenario: " + bad[0]
@@ -441,12 +591,28 @@ def classify(s):
     ex = expected(s) or []
     for c in ex:
         lab.add("expect:" + {0: "silent", 1: "non-allocated", 2: "mismatch", 3: "corruption"}[c])
+    try:
+        sim = Sim(jump, ds)
+        for o in ops:
+            sim.apply(o)
+        for st, now, ts in sim.env_at_release:
+            lab.add("release-in-period:" + PERIOD_NAMES[now[0]])
+            if ts:
+                lab.add("overloads:thread-safe")
+            if st is not None:
+                lab.add("alloc>release period:%s>%s" % (PERIOD_NAMES[st[0]], PERIOD_NAMES[now[0]]))
+                if st[1] != now[1]:
+                    lab.add("stage:changed-between-alloc-and-release")
+                if st[2] != now[2]:
+                    lab.add("typecheck:switched-between-alloc-and-release")
+    except (AssertionError, IndexError, KeyError, ValueError):
+        pass
     for o in ops:
         if o[0] == ":a":
-            lab.add("alloc:" + ["new", "new[]", "malloc", "string"][int(o[1], 16)])
+            lab.add("alloc:" + ENTRY_NAMES[int(o[1], 16)])
             lab.add("size:" + ("0" if int(o[4], 16) == 0 else "1-8" if int(o[4], 16) <= 8 else "9-64" if int(o[4], 16) <= 64 else ">64"))
         elif o[0] == ":f":
-            lab.add("release:" + ["delete", "delete[]", "free", "string"][int(o[1], 16)])
+            lab.add("release:" + RELEASE_NAMES[int(o[1], 16)])
             if o[3] == "~":
                 lab.add("release:NULL")
         elif o[0] == ":r":
@@ -488,7 +654,7 @@ def signature(s, obs):
     _, _, ops = parse(s)
     rel = [o for o in ops if o[0] in (":f", ":r")]
     for o, c, x in zip(rel, ex, it):
-        how = "realloc" if o[0] == ":r" else ["delete", "delete[]", "free", "string"][int(o[1], 16)]
+        how = "realloc" if o[0] == ":r" else RELEASE_NAMES[int(o[1], 16)]
         if x[1] != c or x[0] != (1 if c else 0):
             return "category:%s:expected=%d:got=%d/%d" % (how, c, x[1], x[0])
         if any(b != "~" and set(b[1:][k:k + 2] for k in range(0, len(b) - 1, 2)) - {"cd"} for _, b in x[2]):
